@@ -323,7 +323,7 @@ class ImageBatch(DataTensor):
     ) -> Union[Image, TImageBatch, Tensor]:
         r"""Get image at specified batch index, get a sub-batch, or a region of interest tensor."""
         if index is ...:
-            return self._make_instance(self.tensor(), self.grid())
+            return self._make_instance(self.tensor(), self._grid)
         if type(index) is tuple:
             # Resolve additional ellipses
             index = [j for i, j in enumerate(index) if j is not ... or ... not in index[:i]]
